@@ -23,9 +23,9 @@ CONSTANTS Family,     \* which alphabet: "C01", "C02", ...
           EmitAll     \* TRUE: print the history of EVERY state TLC finds new (with the VIEW: one shortest
                       \* witness history per distinct abstract state); FALSE: only histories of length Depth
 
-VARIABLES st, hist, stepok
+VARIABLES st, hist, stepok, chg    \* chg: the last operation changed the abstract state
 
-vars == <<st, hist, stepok>>
+vars == <<st, hist, stepok, chg>>
 
 BaseCfg == [at |-> "hmac", rscopes |-> <<"offline">>, pkce_all |-> FALSE, pkce_pub |-> FALSE, pkce_plain |-> FALSE,
             par_enf |-> FALSE, no_rt_intro |-> FALSE, l_code |-> 2, l_at |-> 3, l_rt |-> 6, l_dev |-> 2, l_par |-> 2,
@@ -232,7 +232,7 @@ Ops ==
     [] OTHER -> OpsC01 \cup OpsC04 \cup OpsC08 \cup OpsC16 \cup OpsC17
 
 Init == /\ \E c \in Cfgs : st = InitState(c)
-        /\ hist = <<>> /\ stepok = TRUE
+        /\ hist = <<>> /\ stepok = TRUE /\ chg = FALSE
 
 Next ==
   /\ Len(hist) < Depth
@@ -241,6 +241,7 @@ Next ==
         /\ st' = r.st
         /\ hist' = Append(hist, op)
         /\ stepok' = StepInvariant(st, op, r)
+        /\ chg' = (r.st # st)
 
 Spec == Init /\ [][Next]_vars
 
@@ -254,7 +255,17 @@ TypeOK ==
   /\ DOMAIN st.S.at = 1..Count(st.S.at) /\ DOMAIN st.S.rt = 1..Count(st.S.rt) /\ DOMAIN st.S.code = 1..Count(st.S.code)
 
 (* a VIEW that hides the history: states with equal abstract state are identified *)
-View == <<st, stepok>>
+(* ... except for what the specification does not distinguish but the request on the wire does: two operations that
+   lead to the same abstract state (a revocation with the right, a wrong or no token_type_hint; "accept" and "accept
+   and replace the session") would otherwise share ONE witness in the state cover *)
+Tag(op) ==
+  CASE op.op = "revoke" -> <<op.hint, op.kind>>
+    [] op.op = "devdecide" -> <<op.dec>>
+    [] op.op = "redeem" -> <<op.redir>>
+    [] op.op = "usepar" -> <<op.field>>
+    [] OTHER -> <<>>
+View == <<st, stepok>>                                                  \* design check
+ViewGen == <<st, stepok, IF chg THEN Tag(hist[Len(hist)]) ELSE <<>>>>    \* state-cover generation (shallower)
 
 (* generation: print every complete history *)
 (* operations of the alphabet that leave the abstract state as it is (refused attempts, pure queries): the state
